@@ -468,22 +468,16 @@ func (cs *chargingStation) SetDataHandler(handler data.ChargingStationHandler) {
 }
 
 func (cs *chargingStation) SendRequest(request ocpp.Request) (ocpp.Response, error) {
-	featureName := request.GetFeatureName()
-	if _, found := cs.client.GetProfileForFeature(featureName); !found {
-		return nil, fmt.Errorf("feature %v is unsupported on charging station (missing profile), cannot send request", featureName)
-	}
-
 	// Wraps an asynchronous response
 	type asyncResponse struct {
 		r ocpp.Response
 		e error
 	}
-	// Create channel and pass it to a callback function, for retrieving asynchronous response
+	// Create channel and pass it to a callback function, for retrieving asynchronous response.
+	// The request goes through SendRequestAsync, so the same checks apply: a charging station can only
+	// send the requests of its own role.
 	asyncResponseC := make(chan asyncResponse, 1)
-	send := func() error {
-		return cs.client.SendRequest(request)
-	}
-	err := cs.callbacks.TryQueue("main", send, func(confirmation ocpp.Response, err error) {
+	err := cs.SendRequestAsync(request, func(confirmation ocpp.Response, err error) {
 		asyncResponseC <- asyncResponse{r: confirmation, e: err}
 	})
 	if err != nil {
